@@ -21,7 +21,9 @@ def U(node):
 
 @functools.lru_cache(maxsize=None)
 def _parse(pattern):
-    tree = ast.parse(pattern.strip())
+    from .canon import canonicalise
+
+    tree = canonicalise(ast.parse(pattern.strip()), pattern=True)
     if len(tree.body) != 1:
         raise ValueError("pattern must be one statement/expression: %r" % pattern)
     stmt = tree.body[0]
@@ -72,16 +74,20 @@ def _m(p, n, b):
         return True
     if type(p) is not type(n):
         return False
-    if isinstance(p, ast.Compare) and len(p.ops) == 1 and isinstance(p.ops[0], (ast.Eq, ast.NotEq)) \
-            and len(n.ops) == 1 and type(n.ops[0]) is type(p.ops[0]):
-        # == and != are matched commutatively
-        for (nl, nr) in ((n.left, n.comparators[0]), (n.comparators[0], n.left)):
-            trial = dict(b)
-            if _m(p.left, nl, trial) and _m(p.comparators[0], nr, trial):
-                b.clear() if False else None
-                b.update(trial)
-                return True
-        return False
+    if isinstance(p, ast.Compare) and len(p.ops) == 1 and len(n.ops) == 1:
+        flip = {ast.Lt: ast.Gt, ast.Gt: ast.Lt, ast.LtE: ast.GtE, ast.GtE: ast.LtE, ast.Eq: ast.Eq, ast.NotEq: ast.NotEq}
+        pt, nt = type(p.ops[0]), type(n.ops[0])
+        if pt in flip:
+            # ==, != and the four inequalities are matched in both operand orders (the code side is in canonical order, the
+            # pattern's metavariables have no text to order by)
+            for (nl, nr, want) in ((n.left, n.comparators[0], pt), (n.comparators[0], n.left, flip[pt])):
+                if nt is not want:
+                    continue
+                trial = dict(b)
+                if _m(p.left, nl, trial) and _m(p.comparators[0], nr, trial):
+                    b.update(trial)
+                    return True
+            return False
     for field in p._fields:
         if field in ("ctx", "type_comment", "kind"):
             continue
